@@ -1,4 +1,5 @@
 """C10 — delayed terms past(x,tau) / x(t-tau) / delayed edges read the true past of the trajectory.
+(Impl is the code after the repairs D38/D39/D40; their former failing classes are part of the deciding streams.)
 Model: coq/theories/DDE.v (Impl `impl_eval`, `run_impl`; Spec `spec_eval`, `run_spec`); theorems: coq/properties/C10.v.
 Tie (E1), three streams, exact rational comparison evaluated inside Coq:
   func : get_run_func of one-node models whose right-hand sides are sums of monomials over state variables, parameters,
@@ -610,7 +611,7 @@ def check(ctx):
     sample = next((dict(c, points=c["points"][:1], equations=equation_strings(c)) for c in cases if c["kind"] == "func"), None)
     sample_r = next((dict(c, equations=equation_strings(c)) for c in cases if c["kind"] == "run"), None)
     write_evidence(ctx, evaluations=len(cases), distinct_nontrivial=len(nt),
-                   rule="guard-satisfying models on which the real code returned values; non-trivial = some delayed variable does not sit in state slot 0, or one "
+                   rule="models inside the one remaining guard on which the real code returned values; non-trivial = some delayed variable does not sit in state slot 0, or one "
                         "variable carries >= 2 distinct delays (run stream: or a delay that is not a multiple of the step size, so that the history value is "
                         "interpolated); distinct = distinct canonical JSON",
                    samples=[s for s in (sample, sample_r) if s],
@@ -625,9 +626,8 @@ def check(ctx):
                                  "sympy's canonicalisation of a sum of monomials preserves its value (opaque; the real code's result is compared with the model's on every case)",
                                  "state positions pos(x) are read from the state map returned by get_run_func (documented API); the undelayed occurrences of x in the same "
                                  "right-hand sides tie y[pos x] to x",
-                                 "the value of the step size as re-read from the generated code (dt_emit) is computed by the harness with the same format string"],
-                   assumptions=["guard past_terms_printable (finding C10-F1): inside a sum of >= 2 terms no delayed term has a negative numeric coefficient",
-                                "guard dt_fmt_exact (finding C10-F2): the step size survives formatting with 10 decimals (true for dyadic and short decimal step sizes)",
+                                 "repr(float(dt)) in the generated code is read back as exactly dt (Python float repr round-trips)"],
+                   assumptions=["guard edge_delay_above_step (finding C10-F4): the largest delay of the edges leaving a source variable exceeds step_size",
                                 "delays are float literals or parameters (the regex of the x(t-d) rewrite stops at the first ')': composite delays are outside the model)",
                                 "scalar state variables, one operator per node, vectorize=False, backend='default'",
                                 "IEEE rounding is outside the model: the model computes in Qc"])
